@@ -424,4 +424,51 @@ theorem lrHare_nodup (votes : Votes) (hn : (keys votes).Nodup) (n : Nat) (prev c
           rw [hk]
           exact hnd.map (fun a b hab => by cases hab; rfl)
 
+/-! ### the two-stage wrapper with a duplicate-free direct-seat map -/
+
+theorem setK_of_not_mem (d : Dist) (k : Key) (v : Nat) (h : k ∉ d.map (·.1)) : setK d k v = d ++ [(k, v)] := by
+  induction d with
+  | nil => rfl
+  | cons p ps ih =>
+    simp only [List.map_cons, List.mem_cons, not_or] at h
+    simp only [setK]
+    rw [if_neg (fun e => h.1 e.symm), ih h.2]
+    rfl
+
+theorem addDist_append_of_disjoint (acc l : Dist) (hl : (l.map (·.1)).Nodup)
+    (hd : ∀ k ∈ l.map (·.1), k ∉ acc.map (·.1)) : addDist acc l = acc ++ l := by
+  induction l generalizing acc with
+  | nil => simp [addDist]
+  | cons x xs ih =>
+    rw [List.map_cons, List.nodup_cons] at hl
+    have hx : x.1 ∉ acc.map (·.1) := hd x.1 (by simp)
+    rw [addDist_cons, setK_of_not_mem _ _ _ hx, distGet_eq_zero_of_not_mem hx, Nat.zero_add]
+    rw [ih (acc ++ [(x.1, x.2)]) hl.2]
+    · simp
+    · intro k hk
+      simp only [List.map_append, List.map_cons, List.map_nil, List.mem_append, List.mem_singleton, not_or]
+      exact ⟨hd k (by simp [hk]), fun e => hl.1 (e ▸ hk)⟩
+
+theorem distToSeats_seatsToDist (s : Seats) : distToSeats (seatsToDist s) = some s := by
+  induction s with
+  | nil => rfl
+  | cons x xs ih =>
+    unfold seatsToDist at ih ⊢
+    simp only [List.map_cons, distToSeats, ih, Option.map_some]
+
+theorem distGet_addDist_nodup (d1 d2 : Dist) (h2 : (d2.map (·.1)).Nodup) (k : Key) :
+    distGet (addDist d1 d2) k = distGet d1 k + distGet d2 k := by
+  induction d2 generalizing d1 with
+  | nil => simp [addDist, distGet]
+  | cons x xs ih =>
+    rw [List.map_cons, List.nodup_cons] at h2
+    rw [addDist_cons, ih _ h2.2, distGet_setK, distGet_cons]
+    by_cases hk : x.1 = k
+    · rw [if_pos hk, if_pos hk]
+      have : distGet xs k = 0 := distGet_eq_zero_of_not_mem (by rw [← hk]; exact h2.1)
+      rw [hk] 
+      omega
+    · rw [if_neg hk, if_neg hk]
+
+
 end VL.OH
